@@ -287,6 +287,25 @@ def rankdef_wide(rng, n):
     return None
 
 
+
+def overflow_cofactor(rng, n):
+    """first row (x, 0, ..., 0) (or lower triangular): the cofactors of the zero entries overflow (huge first-column / sub-diagonal
+    entries) while the determinant itself is moderate - 0 * inf = NaN before fix 07c574c"""
+    big = lambda: rng.choice([-1, 1]) * rng.uniform(1, 9) * 10.0 ** rng.randint(150, 200)
+    if rng.random() < 0.5:      # lower triangular, huge sub-diagonal entries, moderate diagonal
+        M = [[0.0] * n for _ in range(n)]
+        for i in range(n):
+            M[i][i] = rng.choice([-1, 1]) * rng.uniform(0.5, 2)
+            for j in range(i):
+                M[i][j] = big() if rng.random() < 0.7 else rng.uniform(-1, 1)
+        return M
+    M = [[rng.uniform(-1, 1) for _ in range(n)] for _ in range(n)]
+    M[0] = [rng.choice([-1, 1]) * rng.uniform(0.5, 2)] + [0.0] * (n - 1)
+    for i in range(1, n):
+        M[i][0] = big()
+    return M
+
+
 def tiny_scale(rng, n):
     """well-conditioned matrix times a scale that puts the determinant into the subnormal range (non-zero)"""
     kind = rng.choice(["id", "sperm", "upper", "int"])
@@ -384,9 +403,28 @@ def generate(tier, seed, ctx):
     for M in (col_dep, [[0.1, -0.8, -0.1], [0.2, -1.6, -0.2], [-0.3, 0.8, -0.6]], [[0.3, 0.7], [0.3, 0.7]], [[0.1, 0.2, 0.7], [0.9, 0.4, 0.3], [0.1, 0.2, 0.7]]):
         R.append("c05.gate " + mat_tok(M)); ctx["fam"][R[-1]] = "residue_singular"
         R.append("c05.inverse " + mat_tok(M)); ctx["fam"][R[-1]] = "residue_singular"
-    # exactly rank-deficient, entries of 14..24 bits (OPEN DEFECT 1 of the audit: see RESIDUE_CLAUSE)
+    # vanishing first-row entries with overflowing cofactors (fix 07c574c)
+    for n in range(3, 8):
+        for _ in range(6 if thorough else 2):
+            M = overflow_cofactor(rng, n)
+            if fdet(M) != 0:
+                R.append("c05.det " + mat_tok(M)); ctx["fam"][R[-1]] = "overflow_cofactor"
+    for M in ([[1.0, 0.0, 0.0], [1e155, 1.0, 0.0], [1.0, 1e155, 1.0]],
+              [[1e200, 0.0, 0.0, 0.0], [0.0, 1e-200, 0.0, 0.0], [3.0, 1e200, 1e200, 0.0], [1.0, 2.0, 1e200, 1e-200]]):
+        R.append("c05.det " + mat_tok(M)); ctx["fam"][R[-1]] = "overflow_cofactor"
+    # exactly rank-deficient, entries of 14..24 bits: KNOWN FINDING C05-singular-residue (audit defect 1, RESIDUE_CLAUSE).
+    # A deterministic part runs in every tier so that the known-finding line is printed at every seed.
+    det_rng = random.Random(20260927)
+    fixed = [[[169173.0, -293464.0, 272406.0], [-284189.0, 388663.0, 55826.0], [-115016.0, 95199.0, 328232.0]]]
+    for n in (3, 4, 5, 6):
+        for _ in range(3):
+            M = rankdef_wide(det_rng, n)
+            if M is not None:
+                fixed.append(M)
+    for M in fixed:
+        R.append("c05.gate " + mat_tok(M)); ctx["fam"][R[-1]] = "rankdef_wide"
     for n in range(2, 8):
-        for _ in range(20 if thorough else 5):
+        for _ in range(20 if thorough else 2):
             M = rankdef_wide(rng, n)
             if M is not None:
                 R.append("c05.gate " + mat_tok(M)); ctx["fam"][R[-1]] = "rankdef_wide"
@@ -556,11 +594,13 @@ def oracle(op, a, impl, ctx, scale_model=None):
             return ("Determinant of a square matrix terminated the process", "")
         v = fl(ti[0])
         scale = scale_model if scale_model is not None else rowprod(M)
-        if math.isnan(v) or abs(Fraction(v) - d) > det_tol(n, scale):
+        if math.isnan(v) or math.isinf(v) or abs(Fraction(v) - d) > det_tol(n, scale):
             return ("Determinant differs from the exact determinant", "%r vs %r (n=%d)" % (v, float(d), n))
-        if triangular(M) and all(abs(x) <= 1e20 and (x == 0 or abs(x) >= 1e-20) for r_ in M for x in r_):
+        moderate = all(abs(x) <= 1e20 and (x == 0 or abs(x) >= 1e-20) for r_ in M for x in r_)
+        lower = all(M[i][j] == 0 for i in range(n) for j in range(i + 1, n))
+        if triangular(M) and (moderate or (lower and n >= 3 and all(abs(x) < 1e250 for r_ in M for x in r_))):
             p_ = diag_product(M)
-            if not (v == p_):
+            if not math.isinf(p_) and not (v == p_):
                 return ("triangular matrix: Determinant is not the product of the diagonal", "%s vs %s" % (v.hex(), p_.hex()))
         if scale > 0:
             r = float(abs(Fraction(v) - d) / (EPS * scale))
